@@ -57,6 +57,8 @@ type state struct {
 	eventsNotifyCount   prometheus.Counter
 	eventsFinishedCount prometheus.Counter
 	xorTreeRepair       *xorTreeRepair
+	// addMutex makes sure a rolled-back Add has reloaded the XOR and IBLT trees before the next Add updates them.
+	addMutex sync.Mutex
 }
 
 func (s *state) Migrate() error {
@@ -168,6 +170,14 @@ func (s *state) Add(ctx context.Context, transaction Transaction, payload []byte
 		return nil
 	}
 
+	// The in-memory XOR and IBLT trees are updated inside the write-transaction and reloaded from disk when it is rolled back.
+	// The DB lock is released before the OnRollback hook runs, so without addMutex a concurrent Add could
+	// write tree pages that still contain the rolled-back transaction, making the corruption permanent.
+	// addMutex is released before subscribers are notified, since they may add transactions themselves.
+	s.addMutex.Lock()
+	releaseAddMutex := sync.OnceFunc(s.addMutex.Unlock)
+	defer releaseAddMutex()
+
 	return s.db.Write(ctx, func(tx stoabs.WriteTx) error {
 		// TX already present on DAG, nothing to do
 		// We need to do this check again, because a concurrent call could've added the TX (e.g. we got it from another peer).
@@ -205,7 +215,7 @@ func (s *state) Add(ctx context.Context, transaction Transaction, payload []byte
 	}, stoabs.OnRollback(func() {
 		log.Logger().Warn("Reloading the XOR and IBLT trees due to a DB transaction Rollback")
 		s.loadState(ctx)
-	}), stoabs.AfterCommit(func() {
+	}), stoabs.AfterCommit(releaseAddMutex), stoabs.AfterCommit(func() {
 		if txAdded {
 			s.notify(txEvent)
 			if emitPayloadEvent {
